@@ -8,6 +8,7 @@ import (
 	"encoding/xml"
 	"errors"
 	"fmt"
+	"io"
 	"math/rand"
 	"net/http"
 	"net/http/httptest"
@@ -37,6 +38,10 @@ type countingWriter struct {
 
 var errUnderlying = errors.New("underlying writer failed")
 
+// what real writers fail with (net/http's own errors among them); which one depends on the failure position
+var underlyingErrors = []error{errUnderlying, http.ErrBodyNotAllowed, io.ErrClosedPipe, http.ErrHandlerTimeout, io.ErrShortWrite,
+	http.ErrContentLength}
+
 func (w *countingWriter) Header() http.Header { return w.hdr }
 func (w *countingWriter) WriteHeader(s int) {
 	w.headers++
@@ -58,7 +63,7 @@ func (w *countingWriter) Write(b []byte) (int, error) {
 	w.bytes += a
 	w.body = append(w.body, b[:a]...)
 	w.failed = true
-	return a, errUnderlying
+	return a, underlyingErrors[(w.bytes+len(b))%len(underlyingErrors)]
 }
 
 type respEntity struct {
